@@ -112,10 +112,11 @@ _CANARY = [False]
 
 
 class CaseContract(Contract):
-    canary_path_limit = 60  # (runner option) together with the two-alternative cut below
     """Contract whose setup enumerates argument forms.  The runner's vacuity canary (falsified postconditions must fail on a
-    live path) re-explores the function; for that second pass the enumeration is cut to the first two alternatives of each
+    live path) re-explores the function; for that second pass the enumeration is cut to the two cheapest alternatives of each
     choice - the obligations that count are all generated in the first, full pass."""
+
+    canary_path_limit = 60  # runner option: the canary pass also stops after this many paths
 
     def verify(self, reg, mutate_goal=None, **kw):
         _CANARY[0] = mutate_goal is not None
@@ -272,8 +273,9 @@ def bin_ensures(s):
         for i in sorted(fac):
             vol = vol * fac[i]
         spec = spec / Sym(z3.ToReal(vol))
+    exact = not s.ctx.ghost.get("c06_inexact")  # no reduction with an accumulator that may be narrower than numpy's default (any input dtype)
     out.append((L("out[j] = block sum" + (" / block volume" if c.reducer == "mean" else "") + " (blocks start at 0: only the trailing remainder is dropped)"),
-                implies(inr, lift(S(arr.fn(*j))) == lift(spec))))
+                AND(exact, implies(inr, lift(S(arr.fn(*j))) == lift(spec)))))
     return out + bin_metadata_posts(s, c, L, fac, org, smp)
 
 
@@ -547,6 +549,9 @@ def fam_bin_small(negative=False):
                                inplace=(len(shape) + fs[0] if fs else 0) % 2 == 0, seed=3)
     if negative:
         return
+    for dt in ("uint8", "uint16", "int16", "bool"):  # saturated narrow integers: block sums exceed the input type's range
+        yield dict(shape=[8], dtype=dt, axes=None, factors=4, reducer="sum", inplace=False, seed=2)
+        yield dict(shape=[4, 6], dtype=dt, axes=[1], factors=[3], reducer="mean", inplace=True, seed=4)
     yield dict(shape=[6], dtype="float64", axes=None, factors=[0], reducer="sum", inplace=False, seed=1)
     yield dict(shape=[6], dtype="float64", axes=None, factors=2, reducer="median", inplace=False, seed=1)
     yield dict(shape=[6, 4], dtype="float64", axes=None, factors=[2], reducer="sum", inplace=False, seed=1)
